@@ -137,6 +137,7 @@ EXTRA = [
     ("nesting", "typescript", "else-if-at-limit", {"mod.ts": "function overLimit(a: number, b: number[]) {\n  if (a) {\n    for (const x of b) {\n      while (x) {\n        if (x > a) {\n          work(x);\n        }\n      }\n    }\n  }\n  return a;\n}\n\nfunction atLimit(a: number, b: number[]) {\n  if (a) {\n    work(a);\n  } else if (b) {\n    for (const x of b) {\n      if (x) {\n        work(x);\n      }\n    }\n  } else {\n    work(b);\n  }\n  return b;\n}\n"}, {"nesting": {"max_nesting_depth": 4}}),
     ("srp", "python", "class-at-max-loc", {"mod.py": _class_at_limit()}, {"srp": {"max_methods": 2, "max_loc": 6, "check_keywords": False}}),
     ("magic-numbers", "python", "open-block-at-eof", {"mod.py": "def first():\n    return 3601\n\n\n# thailint: ignore-start magic-numbers\ndef second():\n    return 3602\n"}, {}),
+    ("unwrap-abuse", "rust", "test-attribute", {"lib.rs": "fn production(opt: Option<u32>) -> u32 {\n    opt.unwrap()\n}\n\n#[test]\nfn case_one() {\n    let v = load().unwrap();\n    check(v);\n}\n\n#[cfg(test)]\nmod tests {\n    fn helper() -> u32 {\n        load().unwrap()\n    }\n}\n"}, {}),
     ("improper-logging", "python", "open-block-at-eof", {"mod.py": "def first(v):\n    print(v)\n\n\n# thailint: ignore-start improper-logging\ndef second(v):\n    print(v)\n"}, {}),
 ]
 
@@ -266,7 +267,7 @@ def run_item(item) -> Acc:
     # E8: consistent renaming of a local identifier (only for rules documented as name-insensitive)
     if not d.get("name_sensitive") and not cross and name not in HEADER_SENSITIVE:
         ids = re.findall(r"\b([a-z][a-z0-9_]{2,})\b", text)
-        kw = {"def", "return", "for", "while", "import", "from", "class", "self", "print", "console", "log", "function", "const", "let", "var", "async", "await", "else", "elif", "None", "true", "false", "pass", "break", "continue", "not", "and", "with", "try", "except", "finally", "raise", "match", "case", "loop", "impl", "pub", "mut", "use", "mod", "struct", "string", "number", "range", "len", "unwrap", "expect", "clone", "std", "thread", "sleep", "read_to_string", "tokio", "export", "new", "this", "typeof", "void", "null", "undefined", "any", "str", "int", "bool", "dict", "list", "get", "set", "items", "append", "format", "error", "warn", "info", "debug", "push", "iter", "map", "filter", "collect", "some", "none", "path", "file", "open", "write", "read", "net", "connect", "lambda", "yield", "global", "del", "assert", "isinstance", "hasattr", "getattr", "type", "enumerate", "zip", "sum", "min", "max", "abs", "float", "tuple", "object", "super", "property", "staticmethod", "classmethod"}
+        kw = {"test", "cfg", "derive", "allow", "inline", "def", "return", "for", "while", "import", "from", "class", "self", "print", "console", "log", "function", "const", "let", "var", "async", "await", "else", "elif", "None", "true", "false", "pass", "break", "continue", "not", "and", "with", "try", "except", "finally", "raise", "match", "case", "loop", "impl", "pub", "mut", "use", "mod", "struct", "string", "number", "range", "len", "unwrap", "expect", "clone", "std", "thread", "sleep", "read_to_string", "tokio", "export", "new", "this", "typeof", "void", "null", "undefined", "any", "str", "int", "bool", "dict", "list", "get", "set", "items", "append", "format", "error", "warn", "info", "debug", "push", "iter", "map", "filter", "collect", "some", "none", "path", "file", "open", "write", "read", "net", "connect", "lambda", "yield", "global", "del", "assert", "isinstance", "hasattr", "getattr", "type", "enumerate", "zip", "sum", "min", "max", "abs", "float", "tuple", "object", "super", "property", "staticmethod", "classmethod"}
         cand = [i for i in dict.fromkeys(ids) if i not in kw and ids.count(i) >= 2 and not re.search(rf"[\"'`][^\"'`]*\b{i}\b", text)]
         msgs = " ".join(t[4] for t in base)
         cand = [i for i in cand if i not in msgs][:2]
